@@ -433,17 +433,89 @@ def opFilter (j : Json) : Except String Json := do
   let x ← ratMat? (← field j "x")
   let obs ← ratMat? (← field j "obs")
   let tol ← rat? (← field j "tol")
+  let absx := x.map (fun r => r.map Filter.absQ)
   if kind == "gauss" then
     let w ← rats? (← field j "w")
     let model := Filter.filtTable w x
-    return Json.mkObj [("model", Json.mkObj [("ok", ofRatMat model)]), ("holds", Json.bool (Filter.close tol model obs))]
+    let scale := Filter.filtTable w absx
+    return Json.mkObj [("model", Json.mkObj [("ok", ofRatMat model)]), ("holds", Json.bool (Filter.closeLocal tol model scale obs))]
   else
     let w ← nat? (← field j "window")
     let col := Filter.column x 0
     let model := (Filter.runningMean col w).map (fun v => [v])
     let doc := (Filter.runningMeanDoc col w).map (fun v => [v])
+    let scale := (Filter.runningMean (Filter.column absx 0) w).map (fun v => [v])
     return Json.mkObj [("model", Json.mkObj [("ok", ofRatMat model)]),
-      ("holds", Json.bool (Filter.close tol doc obs && (w != 1 || Filter.close tol x obs)))]
+      ("holds", Json.bool (Filter.closeLocal tol doc scale obs && (w != 1 || x == obs)))]
+
+def closeVec (tol : Rat) (a b : List Rat) : Bool :=
+  a.length == b.length && (List.zip a b).all (fun (x, y) => decide (Linalg.absQ (x - y) ≤ tol))
+
+/-- C09: Chapman–Kolmogorov test.  Plain set: `trajs`; lumped: `micro` + `trajs` (= macro trajectories). -/
+def opCk (j : Json) : Except String Json := do
+  let ts ← trajs? (← field j "trajs")
+  let lumped := (j.getObjVal? "micro").toOption.isSome
+  let micro ← (if lumped then do trajs? (← field j "micro") else pure [])
+  let positive ← (if lumped then do bool? (← field j "positive") else pure false)
+  let tmax ← nat? (← field j "tmax")
+  let lags ← nats? (← field j "lags")
+  let obs ← field (← field j "obs") "ok"
+  let sts := states ts
+  let oStates ← ints? (← field obs "states")
+  let mut ok := oStates == sts
+  let mut why : List String := if ok then [] else ["states"]
+  -- model matrix at a lag
+  let modelAt (lag : Nat) : Option (Linalg.Mat × Bool) :=
+    if lumped then
+      match Msm.estimate micro lag with
+      | .ok (_, T, _) =>
+        let (_, As, assign) := assignment micro ts
+        if Linalg.isErgodic T then (Linalg.hsProject T assign As.length positive).map (fun R => (R, nearThreshold T)) else none
+      | .error _ => none
+    else
+      match Msm.estimate ts lag with
+      | .ok (_, T, _) => some (T, false)
+      | .error _ => none
+  let lagObs ← arr? (← field obs "lags")
+  if lagObs.length != lags.length then ok := false; why := why ++ ["nlags"]
+  for (lag, lo) in (lags.mergeSort (· ≤ ·)).zip lagObs do
+    let oLag ← nat? (← field lo "lag")
+    let oTime ← nats? (← field lo "time")
+    let oCk ← ratMat? (← field lo "ck")
+    let oErg ← bool? (← field lo "is_ergodic")
+    let oFz ← bool? (← field lo "is_fuzzy")
+    if oLag != lag then ok := false; why := why ++ [s!"lagkey{lag}"]
+    if oTime != Timescales.ckTimes lag tmax then ok := false; why := why ++ [s!"times{lag}"]
+    match modelAt lag with
+    | none => pure ()     -- lumped estimate refused / not computable exactly: nothing to compare
+    | some (T, nearT) =>
+      let curves := Timescales.ckCurves T lag tmax
+      let tol : Rat := if lumped then (1 : Rat) / 1000000 else (1 : Rat) / 1000000000
+      if !(oCk.length == curves.length && (List.zip oCk curves).all (fun (a, b) => closeVec tol a b)) then
+        ok := false; why := why ++ [s!"curves{lag}"]
+      let near := nearT || nearThreshold T || lumped
+      if !near && (oErg != Linalg.isErgodic T || oFz != Linalg.isFuzzyErgodic T) then
+        ok := false; why := why ++ [s!"flags{lag}"]
+  -- reference
+  let md ← field obs "md"
+  let mTime ← nats? (← field md "time")
+  let mCk ← ratMat? (← field md "ck")
+  let mErg ← bools? (← field md "is_ergodic")
+  let mFz ← bools? (← field md "is_fuzzy")
+  let tmin := (lags.foldl min (lags.headD 0))
+  if !Timescales.refGridOk mTime tmin tmax then ok := false; why := why ++ ["refgrid"]
+  let mut k := 0
+  for t in mTime do
+    match Msm.estimate ts t with
+    | .ok (_, T, _) =>
+      let diagT := (List.range T.length).map (fun s => Linalg.entry T s s)
+      let col := mCk.map (fun curve => curve.getD k 0)
+      if !closeVec ((1 : Rat) / 1000000000000) col diagT then ok := false; why := why ++ [s!"ref{t}"]
+      if !nearThreshold T && (mErg.getD k false != Linalg.isErgodic T || mFz.getD k false != Linalg.isFuzzyErgodic T) then
+        ok := false; why := why ++ [s!"refflags{t}"]
+    | .error _ => ok := false
+    k := k + 1
+  return Json.mkObj [("model", Json.mkObj [("ok", Json.arr (why.map Json.str).toArray)]), ("holds", Json.bool ok)]
 
 def dispatch (j : Json) : Except String Json := do
   let op ← str? (← field j "op")
@@ -469,6 +541,7 @@ def dispatch (j : Json) : Except String Json := do
   | "hs" => opHs j
   | "its" => opIts j
   | "filter" => opFilter j
+  | "ck" => opCk j
   | _ => throw s!"unknown op {op}"
 
 end MsmVerif.Driver
